@@ -20,7 +20,8 @@ RULE = ('Linear regime: valid chains (no self-locking mating), constant load (be
         'horizon, or a motor without current data; D of either sign), no stop condition. Rate constant k = E R^2 '
         'Tmax(D) / (D w0 J_eq) recomputed from the case; horizon 3..6 / k; FOUR simulations per case with steps dt0 / 2^j, '
         'j = 0..3, k dt0 <= 0.2, dt in random units; in a third of the cases each simulation is a run plus a continued '
-        'run whose dt and T are written in another time unit. Oracle: w(t) = w_inf + (w(0) - w_inf) exp(-k t), theta(t) = theta0 '
+        'run whose dt and T are written in another time unit, and in a quarter the first run is cut short by a stop '
+        'condition and then continued. Oracle: w(t) = w_inf + (w(0) - w_inf) exp(-k t), theta(t) = theta0 '
         '+ w_inf t + (w(0) - w_inf)(1 - exp(-k t)) / k. Checked at EVERY instant of every run: |w_sim - w| <= 0.5 (k dt) '
         '|w(0) - w_inf| and |theta_sim - theta| <= (k dt) |w(0) - w_inf| / k (1 + k t); at the common time t* ~ 1/k '
         'the error ratio err(dt_j) / err(dt_j+1) must lie in [1.6, 2.5] whenever the finer error is above 1e6 eps of the '
@@ -71,8 +72,31 @@ def check(case) -> Result:
         if case['duty']['how'] == 'rule':
             c['control'] = [{'rule': 'constant', 'start': [0, 'sec'],
                              'duration': G.qty('TimeInterval', dt_si * n * 2, 'sec'), 'value': case['duty']['value']}]
+        st_ = case.get('stop_then_continue')
+        if st_ and not sp:
+            # the first run is cut short by a stop condition placed on the closed-form position at a fraction of the
+            # horizon; the run is then continued for the remaining steps: every instant still lies on the closed form
+            tf = st_['frac'] * dt_si * n
+            th_f = th0 + w_inf * tf + dw * (1 - math.exp(-k * tf)) / k
+            if th_f != th0:
+                c['stop'] = {'sensor': 'encoder', 'target': mdl.n - 1, 'op': 'ge' if th_f > th0 else 'le',
+                             'threshold': G.qty('AngularPosition', th_f, st_['unit'])}
+                c['history'] = [dict(hist[0], stop=True)]
         try:
-            b, traces, err = S.simulate(c)
+            if c.get('stop'):
+                b = S.build(c)
+                traces, err = [], None
+                try:
+                    S.run_op(b, c['history'][0])
+                    n1 = len(b.powertrain.time) - 1
+                    if n1 < n:
+                        S.run_op(b, {'op': 'run', 'dt': dt, 'T': [dt[0] * (n - n1), unit], 'control': ctl})
+                        res.classes += ('stopped-then-continued',)
+                    traces = [S.Trace(b)]
+                except Exception as e:  # noqa
+                    err = e
+            else:
+                b, traces, err = S.simulate(c)
         except Exception as e:  # noqa
             res.classes += (f'build-rejected:{type(e).__name__}',)
             res.build_error = e
@@ -169,9 +193,13 @@ def s_case(draw, max_len=5):
     case['n0'] = max(4, int(draw(st.floats(3, 6)) / case['kdt0']))
     case['dt_unit'] = draw(G.s_unit('TimeInterval'))
     case['history'] = []
-    if draw(st.integers(0, 2)) == 0:
+    v = draw(st.integers(0, 3))
+    if v == 0:
         # the same trajectory reached through a continued run, the continuation written in another time unit
         case['split'] = {'frac': draw(st.floats(0.1, 0.9)), 'unit2': draw(G.s_unit('TimeInterval'))}
+    elif v == 1:
+        # ... or through a run stopped early by a stop condition and then continued
+        case['stop_then_continue'] = {'frac': draw(st.floats(0.1, 0.8)), 'unit': draw(G.s_unit('AngularPosition'))}
     return case
 
 
